@@ -8,6 +8,7 @@
 #include "common/proto.h"
 #include <vector>
 #include <sstream>
+#include <memory>
 #include "ompl/util/Exception.h"
 #define private public
 #include "ompl/datastructures/PDF.h"
@@ -49,7 +50,8 @@ int main()
         std::cout << "bad-header\n";
         return 2;
     }
-    P pdf;
+    auto pdfp = std::make_unique<P>();   // replaceable: `ctor` puts a PDF(data, weights) object under test
+#define pdf (*pdfp)
     auto fin = [&](const std::string &res) { std::cout << res << " | " << dump(pdf) << std::endl; };
     auto alive = [&](size_t h) { return h < handles.size() && handles[h] != nullptr; };
 
@@ -137,6 +139,37 @@ int main()
             for (char c : txt)
                 flat += (c == '\n') ? '/' : c;
             std::cout << "ok | " << dump(pdf) << " || " << flat << std::endl;
+        }
+        else if (op == "ctor")
+        {
+            // PDF(data, weights) replaces the structure under test; the history then continues on the constructed object
+            size_t i = 1;
+            auto xs = vp::takeCounted(t, i);
+            bool ok = xs && i == t.size();
+            std::vector<double> ws;
+            std::vector<int> ds;
+            if (ok)
+                for (auto &x : *xs)
+                {
+                    auto v = vp::parseBits(x);
+                    if (!v) { ok = false; break; }
+                    ds.push_back((int)ws.size());
+                    ws.push_back(*v);
+                }
+            if (!ok) { std::cout << "bad-op" << std::endl; continue; }
+            try
+            {
+                auto fresh = std::make_unique<P>(ds, ws);
+                pdfp = std::move(fresh);
+                handles.clear();
+                for (auto *e : pdf.getElements())
+                    handles.push_back(e);
+                fin("ok");
+            }
+            catch (const ompl::Exception &)
+            {
+                fin("err-neg");
+            }
         }
         else if (op == "bulk")
         {
